@@ -433,6 +433,10 @@ def rule_pop_self(ctx: RuleContext, p: Program, rid: str) -> None:
             c = ev[1]
             if self_attr(c.func) == '_del_tokens':
                 events.append('delete')
+            if (dotted(c.func) or '').endswith('TokenStore.from_tokens') and 'store_var' not in info:
+                events.append('newstore')          # canonical form: built inline as the reattach argument
+                info['store_var'] = norm(c)
+                info['store_from'] = norm(c.args[0])
             if c.func.attr == 'reattach':
                 events.append('reattach')
                 info['reattach_node'] = norm(c.func.value)
